@@ -160,7 +160,11 @@ def handleSwaps (j : Json) : Except String Verdict := do
     return { agree := true, spec := true, tags := ["OUT_OF_MODEL"] }
   let impl := optTotal j "impl"
   let m := numSwapsTree dflt e radix lat depth t
-  let s := swapsSpec e radix lat depth (skel (e + 2 + depth) t)
+  -- the executable specification: closed-form rounds cost / insertion-buffer merge, on the skeleton
+  let sk := skel (e + 2 + depth) t
+  let s := match lat with
+    | .fin l => swapsSpecFin e radix l depth sk
+    | .inf => swapsSpecInf e radix depth sk
   let nodes := mergeNodes dflt e depth t
   let tags := dedup ([s!"depth={depth}", s!"below={e}",
       (match lat with | .inf => "lat=N" | .fin _ => "lat=int"),
